@@ -79,7 +79,7 @@ class ApiModel(object):
         self.ctx.count("ops.set_neighbour")
 
     def op_set_invalid(self, rng):
-        value, reason = tablegen.invalid_update(rng)
+        value, reason = tablegen.invalid_update(rng, current=dict(self.model))
         before = self.observe()
         self.log.append(["set-invalid", repr(value), reason])
         r = call_guard(lambda: self.sf.set_semantic_constraints(value))
@@ -111,7 +111,7 @@ class ApiModel(object):
         self.log.append(["get"])
         g = self.sf.get_semantic_constraints()
         self.ctx.count("ops.get_table")
-        if g != self.model or not isinstance(g, dict):
+        if g != self.model or not isinstance(g, dict) or any(type(v) is not int for v in g.values()):
             self.disagree("get-differs-from-set", "get_semantic_constraints() = %r, model %r" % (g, self.model))
         if rng.random() < 0.7:   # aliasing probe: really mutate what was returned
             self.log.append(["mutate-returned-table"])
